@@ -88,7 +88,7 @@ func memcacheFamily(t *testing.T, r *mc.Run, shard *int) {
 			continue
 		}
 		st, tr := mc.BFS(r, mc.BFSOpts{Name: "memory-cache", NEvents: len(al), MaxDepth: depth, Prefix: []int{first}, CheckPrefix: true,
-			EvName: func(e int) string { return al[e].String() },
+			EvName:   func(e int) string { return al[e].String() },
 			Classify: func(fail string, _ []int) string { return "CACHE-SIZE:component" },
 			Run: func(body func(mc.Model)) {
 				synctest.Test(t, func(t *testing.T) {
